@@ -5,7 +5,7 @@ from hypothesis import strategies as st
 
 from sqv.spec.unparse import BINL
 
-NAMES = ['a', 'b', 'c', 'f', 'g', 'x']
+NAMES = ['a', 'b', 'c', 'f', 'g', 'x', '_', 'a', 'b', '_1']
 BINOPS = list(BINL)
 NONE = ('Val', None)
 SLICE_FORMS = ['a:b', 'a:', ':b', '::c', ':', 'a::', ':b:']
@@ -22,7 +22,7 @@ class G:
         self._int = {}
         self.blanks = blanks
         if blanks:
-            self.names = list(names) + ['%a b%', '%a  b%', '%a\tb%', '% a%']
+            self.names = list(names) + ['%a b%', '%a  b%', '%a\tb%', '% a%', '%a\rb%', '%a\x0cb%', '%a\u2028b%', '%a\x85b%', '%a\xa0b%']
 
     def n(self, k):
         """integer in [0, k)"""
@@ -44,7 +44,7 @@ class G:
         if r < 15:
             return ('Val', D(self.pick(['1', '2', '3.5', '0', '10.25'])))
         if r < 17:
-            return ('Val', self.pick(['s', 'q', '', 'a b', 'a  b', 'a\tb', ' ', '  ', 'a b ', 'a b  ']) if self.blanks else self.pick(['s', 'q', '']))
+            return ('Val', self.pick(['s', 'q', '', 'a b', 'a  b', 'a\tb', ' ', '  ', 'a b ', 'a b  ', 'a\x0bb', 'a\x0cb', 'a\x1cb', 'a\x85b', 'a\u2028b', 'a\u2029b', 'a\xa0b', 'x = 1\u2028y']) if self.blanks else self.pick(['s', 'q', '']))
         return ('Val', self.pick([True, False, None]))
 
     def expr(self, d):
